@@ -32,6 +32,7 @@ type goroutine struct {
 	pending *schedOp
 	result  *schedResult
 	parked  bool
+	parkSeq int
 	vc      vclock
 }
 
